@@ -12,6 +12,7 @@ import (
 	"sort"
 	"strconv"
 	"strings"
+	"sync/atomic"
 
 	kcp "github.com/xtaci/kcp-go/v5"
 	"verif/harness/internal/hx"
@@ -33,6 +34,12 @@ type endpoint struct {
 	gotMsgs [][]byte
 	wireSn  map[uint32]int // count of PUSH transmissions per sn (C18)
 	maxRto  uint32
+
+	// C04 "nothing new after a timeout loss until the oldest outstanding segment is acknowledged"
+	collapse    bool   // a timeout retransmission happened with congestion control on
+	collapseUna uint32 // snd_una at that moment
+	collapseNxt uint32 // snd_nxt at that moment
+	fastSince   bool   // a later flush did a fast/early retransmit (fast recovery re-inflates cwnd)
 }
 
 type world struct {
@@ -138,6 +145,7 @@ func (w *world) call(e *endpoint, op string, f func() string) bool {
 	e.outs = e.outs[:0]
 	kcp.VerifSetClock(w.now)
 	var obs string
+	lost0, fast0 := snmpLost(), snmpFast()
 	if msg := hx.Try(func() { obs = f() }); msg != "" {
 		e.dead = true
 		w.aborted = true
@@ -149,8 +157,40 @@ func (w *world) call(e *endpoint, op string, f func() string) bool {
 	d := kcp.VerifKCPState(e.k)
 	w.emit(e, op, obs+" | "+scalars(&d))
 	w.checkInvariants(e, &d, op)
+	w.admissionOracle(e, &d, op, snmpLost()-lost0, snmpFast()-fast0)
 	w.route(e)
 	return true
+}
+
+func snmpLost() uint64 { return atomic.LoadUint64(&kcp.DefaultSnmp.LostSegs) }
+func snmpFast() uint64 {
+	return atomic.LoadUint64(&kcp.DefaultSnmp.FastRetransSegs) + atomic.LoadUint64(&kcp.DefaultSnmp.EarlyRetransSegs)
+}
+
+// admissionOracle (C04): with congestion control on, after a flush that retransmitted by timeout no
+// new sequence number is assigned until snd_una moves.  A later fast/early retransmission
+// re-inflates cwnd (fast recovery) — that case is reported under its own kind (known finding).
+func (w *world) admissionOracle(e *endpoint, d *kcp.VerifKCPDump, op string, lost, fast uint64) {
+	if e.collapse && d.SndUna != e.collapseUna {
+		e.collapse = false
+	}
+	if e.collapse && d.SndNxt != e.collapseNxt {
+		kind := "admission-after-timeout"
+		if e.fastSince {
+			kind = "admission-after-timeout-fast-recovery"
+		}
+		w.viol(kind, fmt.Sprintf("%s after %s: snd_nxt moved %d -> %d while snd_una is still %d since the timeout retransmission (cwnd %d)", e.name, op, e.collapseNxt, d.SndNxt, d.SndUna, d.Cwnd))
+		e.collapse = false
+	}
+	if e.collapse && fast > 0 && lost == 0 {
+		e.fastSince = true
+	}
+	if lost > 0 && d.Nocwnd == 0 {
+		e.collapse, e.collapseUna, e.collapseNxt, e.fastSince = true, d.SndUna, d.SndNxt, false
+	}
+	if d.Nocwnd != 0 {
+		e.collapse = false
+	}
 }
 
 func panicKind(op string, w *world) string {
